@@ -34,6 +34,10 @@ func runC08(c *Ctx) {
 	c.cipherConstants()
 	// info strings over all byte values: every string reaches the program text escaped
 	c.templateEscaping(nil)
+	// the strings of the FontInfo dictionary decode to what the font says only if every byte is
+	// written in a form the string reader maps back to it (same decision as C04/C09 LEX-WRITER: the
+	// string serialiser evaluated for every byte value, alone and before a digit or a parenthesis)
+	c.stringWriter(c.info("postscript"), c.readStringTables(c.info("postscript")))
 	c.glyphNameShadowing()
 
 	// ---- eexec writer: encryption shape, decided through Write/Close on the evaluator (ext_b.go)
